@@ -108,6 +108,25 @@ def loadAssoc (L : Lang) (s : St) (e : AssocEntry) : Except Err St :=
       else .error .validation
   | _, _ => .error .validation
 
+/-! ### which key of an association entry is its type
+
+`association_to_dict` writes `{<type>: {...fields...}, 'extras': {...}}` (the `extras` key only when there are
+extras).  A JSON file keeps that order; PyYAML writes mappings sorted by key, so for a type name that sorts after
+`"extras"` the type is *not* the first key.  `_from_dict` takes the key that is not `extras`. -/
+
+/-- the keys of one association entry in the order `_to_dict` inserts them -/
+def assocKeys (e : AssocEntry) : List String := e.cls :: (if e.extras.isSome then ["extras"] else [])
+/-- `_from_dict`: `[key for key in assoc_entry.keys() if key != 'extras'][0]` -/
+def typeKey (ks : List String) : Option String := (ks.filter (fun k => k != "extras")).head?
+/-- the code before the repair ff5c204: `list(assoc_entry.keys())[0]` -/
+def typeKeyFirst (ks : List String) : Option String := ks.head?
+
+/-- loading one association entry whose keys come back from the file layer in the order `order` gives -/
+def loadAssocKeyed (L : Lang) (order : List String → List String) (s : St) (e : AssocEntry) : Except Err St :=
+  match typeKey (order (assocKeys e)) with
+  | some c => loadAssoc L s { e with cls := c }
+  | none => .error .lookupError
+
 def loadAttacker (s : St) (e : Key × AttackerEntry) : Except Err St :=
   match e.1.toInt? with
   | none => .error .valueError
